@@ -387,6 +387,49 @@ def r07_7_annotation_roundtrip(ctx):
     ctx.require_min("R07.7", 9)
 
 
+def r07_8_annotation_inverse(ctx):
+    from sa.minieval import run_function as _rf
+
+    ctx.rule("R07.8", "annotation round trip: type_spec_from_annotation(spec.annotation_type()) has the signature string of spec for scalars, byte strings, arrays and tuples of up to five members of a bounded universe - a value declared through an annotation (subroutine parameter, abi.make) has the type that was written")
+    W = AbiWorld(ctx)
+    f = ctx.model.find_func("type_spec_from_annotation", "pyteal.ast.abi.util")
+    ilf = ctx.model.find_func("int_literal_from_annotation", "pyteal.ast.abi.util")
+    ctx.analysed(f.fq, ilf.fq)
+
+    def extra(e, me):
+        t = u(e)
+        if t == "get_origin":
+            return lambda a: (a.parts[0] if isinstance(a, Rec) and a.kind == "item" else None)
+        if t == "get_args":
+            def ga(a):
+                if isinstance(a, Rec) and a.kind == "item":
+                    sub = a.parts[1]
+                    return tuple(sub) if isinstance(sub, (list, tuple)) else (sub,)
+                return ()
+            return ga
+        if t == "issubclass":
+            return lambda a, b: False
+        raise Unknown()
+
+    resolver = lambda nm: {"type_spec_from_annotation": f.node, "int_literal_from_annotation": ilf.node}.get(nm) or W.resolver(nm)
+    shapes = [("bool",), ("byte",), ("uint", 8), ("uint", 16), ("uint", 32), ("uint", 64), ("address",), ("string",), ("bytes_dyn",), ("bytes_static", 7), ("darr", ("uint", 16)), ("darr", ("string",)), ("sarr", ("uint", 64), 3), ("sarr", ("bool",), 9), ("darr", ("sarr", ("byte",), 2)), ("ref", "account"), ("ref", "asset"), ("ref", "application")]
+    members = [("uint", 8), ("string",), ("bool",), ("uint", 16), ("uint", 64)]
+    shapes += [("tuple", tuple(members[:k])) for k in range(0, 6)] + [("tuple", (("tuple", (("uint", 8), ("bool",))), ("darr", ("uint", 64))))]
+    for shape in shapes:
+        construct = f"annotation-round-trip[{arc4.sig(shape)}]"
+        where = ctx.model.find_class(arc4.class_of(shape)).where
+        try:
+            spec = W.spec(shape)
+            ann = spec.methods["annotation_type"]()
+            back, _ = _rf(f.node, {"annotation": ann}, W.oracle(extra), f.fq, permissive=True, resolver=resolver, setup=W.setup)
+            got = back.methods["__str__"]() if isinstance(back, Sym) and "__str__" in back.methods else strip(back)
+        except Raised as r:
+            ctx.bad("R07.8", construct, f"the round trip raises {r.exc_text[:70]}", where)
+            continue
+        ctx.check(got == arc4.sig(shape), "R07.8", construct, f"annotation {strip(ann)[:80]} is read back as {got}", where, fact={"annotation": strip(ann)[:100]})
+    ctx.require_min("R07.8", 20)
+
+
 def run(ctx):
     r07_1_index_tuple(ctx)
     r07_2_decoders(ctx)
@@ -395,6 +438,7 @@ def run(ctx):
     r07_5_immutable_values(ctx)
     r07_6_access_buildable(ctx)
     r07_7_annotation_roundtrip(ctx)
+    r07_8_annotation_inverse(ctx)
     from rules import c06 as _c06, c04 as _c04
 
     _c06.r06_1_descriptors(ctx)  # static lengths / dynamic-ness the walkers rely on (shared with C06)
